@@ -98,3 +98,86 @@ Proof.
     destruct (str_is name FN_concat) eqn:E4; [|discriminate]. apply str_is_eq in E4. subst name.
     rewrite call_concat. apply fine_ok.
 Qed.
+
+Lemma filter_pred_fine m p size : typed_pred p = true ->
+  forall cs pos, fine (filter_pred m p size pos cs) (bound m p).
+Proof.
+  unfold typed_pred. destruct (ty_of p) as [t|] eqn:Ht; [|discriminate]. intros _.
+  induction cs as [|c cs IH]; intro pos; [apply fine_ok|]. cbn [filter_pred].
+  eapply fine_weaken; [apply (fine_bind _ _ _ (bound m p) (expr_fine m p t Ht c pos size))|destruct (bound m p); auto].
+  intros v _. eapply fine_weaken; [apply (fine_bind _ _ _ true (IH (pos + 1)%N)); intros; apply fine_ok|rewrite andb_true_r; auto].
+Qed.
+Lemma apply_preds_fine m : forall ps cs, forallb typed_pred ps = true -> fine (apply_preds m ps cs) (forallb (bound m) ps).
+Proof.
+  induction ps as [|p ps IH]; intros cs H; [apply fine_ok|]. cbn [forallb] in *. apply andb_prop in H as [H1 H2].
+  cbn [apply_preds]. apply fine_bind; [apply filter_pred_fine; exact H1|]. intros; apply IH; exact H2.
+Qed.
+Lemma test_fine m t c : fine (d_test m t c) (test_bound m t).
+Proof.
+  destruct t as [p l|p|k|tg]; cbn [d_test test_bound]; try apply fine_ok.
+  - rewrite unknown_prefix_pfx. destruct (pfx_ok m p); cbn [negb]; [|right; auto].
+    destruct (negb (is_tagnode c)); [apply fine_ok|]. destruct (ipayload (snd c)); apply fine_ok.
+  - rewrite unknown_prefix_pfx. destruct (pfx_ok m p); cbn [negb]; [|right; auto].
+    destruct (negb (is_tagnode c)); [apply fine_ok|]. destruct p as [[|? ?]|]; destruct (ipayload (snd c)); apply fine_ok.
+  - destruct (is_doc c); [apply fine_ok|]. destruct (ipayload (snd c)); apply fine_ok.
+Qed.
+Lemma filter_test_fine m t : forall l, fine (filter_test m t l) (test_bound m t).
+Proof.
+  induction l as [|c l IH]; [apply fine_ok|]. cbn [filter_test].
+  eapply fine_weaken; [apply (fine_bind _ _ _ (test_bound m t) (test_fine m t c))|destruct (test_bound m t); auto].
+  intros b _. eapply fine_weaken; [apply (fine_bind _ _ _ true IH); intros; apply fine_ok|rewrite andb_true_r; auto].
+Qed.
+Lemma axis_no_fault D a n : axis_real a = true -> snd (d_axis D a n) = None.
+Proof. destruct a; try discriminate; intros _; cbn; try reflexivity; destruct (is_doc n); reflexivity. Qed.
+
+Lemma step1_fine D m s n : step_typed s = true -> fine (d_step1 D m s n) (step_bound m s).
+Proof.
+  destruct s as [a t ps]. cbn [step_typed step_bound]. intro H. apply andb_prop in H as [Ha Hp].
+  unfold d_step1. pose proof (axis_no_fault D a n Ha) as Hx. destruct (d_axis D a n) as [gen af]. cbn in Hx. subst af.
+  apply fine_bind; [apply filter_test_fine|]. intros; apply apply_preds_fine; exact Hp.
+Qed.
+
+(* streams: no fault, or the refusal with an undeclared prefix *)
+Definition sfine (f : option fault) (declared : bool) : Prop :=
+  f = None \/ (f = Some (FRejected XPathEvaluationError) /\ declared = false).
+Lemma collect_fine D m s : step_typed s = true -> forall ns, sfine (snd (collect D m s ns)) (step_bound m s).
+Proof.
+  intros H. induction ns as [|n ns IH]; [left; reflexivity|]. cbn [collect].
+  destruct (step1_fine D m s n H) as [(l & ->)|(-> & Hb)].
+  - destruct (collect D m s ns) as [l' f]. exact IH.
+  - right. split; [reflexivity|exact Hb].
+Qed.
+Lemma d_step_fine D m s inp b : step_typed s = true -> sfine (snd inp) b -> sfine (snd (d_step D m s inp)) (b && step_bound m s).
+Proof.
+  intros H Hin. unfold d_step. pose proof (collect_fine D m s H (fst inp)) as Hc. destruct (collect D m s (fst inp)) as [c f].
+  cbn [snd] in *. destruct Hc as [->|(-> & Hb)].
+  - destruct Hin as [->|(-> & ->)]; [left; reflexivity|right; auto].
+  - right. split; [reflexivity|]. rewrite Hb. apply andb_false_r.
+Qed.
+Lemma steps_fine D m : forall ss inp b, forallb step_typed ss = true -> sfine (snd inp) b ->
+  sfine (snd (fold_left (fun acc s => d_step D m s acc) ss inp)) (b && forallb (step_bound m) ss).
+Proof.
+  induction ss as [|s ss IH]; intros inp b H Hin; cbn [fold_left forallb].
+  - rewrite andb_true_r. exact Hin.
+  - cbn [forallb] in H. apply andb_prop in H as [H1 H2]. rewrite andb_assoc. apply IH; [exact H2|]. apply d_step_fine; assumption.
+Qed.
+Lemma paths_fine D m ctx : forall e, typed e = true -> sfine (snd (d_paths D m e ctx)) (all_bound m e).
+Proof.
+  unfold typed, all_bound. induction e as [|p e IH]; intro H; [left; reflexivity|]. cbn [forallb] in *. apply andb_prop in H as [H1 H2].
+  cbn [d_paths]. destruct p as [ab ss]. cbn [path_steps] in *.
+  pose proof (steps_fine D m ss ([if ab then ([], D) else ctx], None) true H1 (or_introl eq_refl)) as Hp.
+  unfold d_path. destruct (fold_left _ ss _) as [l f]. cbn [snd andb] in Hp. destruct Hp as [->|(-> & Hb)].
+  - specialize (IH H2). destruct (d_paths D m e ctx) as [l' f']. cbn [snd] in *.
+    destruct IH as [->|(-> & Hb)]; [left; reflexivity|right; split; [reflexivity|rewrite Hb; apply andb_false_r]].
+  - right. split; [reflexivity|]. rewrite Hb. reflexivity.
+Qed.
+
+(* the evaluator on typed expressions: a node list, or XPathEvaluationError because of an undeclared prefix *)
+Lemma eval_fine D m e ctx : typed e = true ->
+  (exists l, eval D m e ctx = Ok l) \/ (eval D m e ctx = Rejected XPathEvaluationError /\ all_bound m e = false).
+Proof.
+  intro H. pose proof (paths_fine D m ctx e H) as Hp. unfold eval. destruct (d_paths D m e ctx) as [l f]. cbn [snd] in Hp.
+  destruct Hp as [->|(-> & Hb)]; [left; eauto|right; auto].
+Qed.
+Lemma eval_no_fault D m e ctx : typed e = true -> all_bound m e = true -> exists l, eval D m e ctx = Ok l.
+Proof. intros H Hb. destruct (eval_fine D m e ctx H) as [Hl|(_ & Hc)]; [exact Hl|congruence]. Qed.
